@@ -103,3 +103,33 @@ pub fn verif_root_canary__bad_debug_assert(x: usize) {
 pub fn verif_root_canary__good_debug_assert(x: usize) {
     debug_assert!((x & !15) % 16 == 0);
 }
+
+// ---- canaries for the bit-level engine (analysis/bitform.py): bitsliced 3-bit maps with a known verdict for the
+// S-box inverse lemma (analysis/c01.py pw_lemma): (pw_f, pw_f_inv) is an inverse pair, (pw_f, pw_f_notinv) is not,
+// pw_notpure is not a position-wise boolean circuit.
+pub fn verif_root_canary__pw_f(s: &mut [u32]) {
+    let (a, b, c) = (s[0], s[1], s[2]);
+    s[0] = a ^ (b & c);
+    s[1] = b ^ c;
+    s[2] = !c;
+}
+pub fn verif_root_canary__pw_f_inv(s: &mut [u32]) {
+    let (a, b, c) = (s[0], s[1], !s[2]);
+    let b0 = b ^ c;
+    s[0] = a ^ (b0 & c);
+    s[1] = b0;
+    s[2] = c;
+}
+pub fn verif_root_canary__pw_f_notinv(s: &mut [u32]) {
+    let (a, b, c) = (s[0], s[1], !s[2]);
+    let b0 = b ^ c;
+    s[0] = a ^ (b0 | c);
+    s[1] = b0;
+    s[2] = c;
+}
+pub fn verif_root_canary__pw_notpure(s: &mut [u32]) {
+    let (a, b, c) = (s[0], s[1], s[2]);
+    s[0] = a.rotate_left(1) ^ b;
+    s[1] = b;
+    s[2] = c;
+}
